@@ -67,12 +67,19 @@ pub fn may_have_internal_overlap(shape: impl SizeArray, strides: impl SizeArray)
 
     // Verify that the stride for each dimension fully "steps over" the
     // previous dimension.
-    let mut max_offset = 0;
+    let mut max_offset: usize = 0;
     for (stride, shape) in stride_shape {
         if stride <= max_offset {
             return true;
         }
-        max_offset += (shape - 1) * stride;
+        // If the maximum offset overflows, conservatively report overlap.
+        let Some(new_max_offset) = (shape - 1)
+            .checked_mul(stride)
+            .and_then(|dim_max| max_offset.checked_add(dim_max))
+        else {
+            return true;
+        };
+        max_offset = new_max_offset;
     }
     false
 }
